@@ -165,6 +165,27 @@ fn c03_4c_paused() { run_frozen(1) }
 #[kani::unwind(8)]
 fn c03_4d_waiting_to_resume() { run_frozen(2) }
 
+// @ob id=C03.4f,C12.5b strength=bounded tier=quick timeout=800 bound="3 symbolic frames; one 2-frame process; the state machine placed in WaitingToResume (what pause + completed fade + resume_at produce: C03.1a/b, C03.2) with a 1 s delay, dt 1/48000" axioms=EXP10 fn=sound/static_sound/sound.rs::<StaticSound as Sound>::process
+// @req a sound whose state machine is WaitingToResume (start time not reached, fade resting at -60 dB)
+// @ens quick-tier twin of C03.4d: exact silence, transport / fractional position / resampler window unchanged, still WaitingToResume
+#[kani::proof]
+#[kani::unwind(8)]
+#[kani::stub(f32::powf, powf32_model)]
+fn c03_4f_waiting_to_resume_lean() {
+    let src = any_frames3();
+    let (mut s, h) = build(src, StaticSoundSettings::new(), None);
+    let info = empty_info();
+    s.playback_state_manager = crate::playback_state_manager::kani_proofs::waiting_manager(StartTime::Delayed(Duration::from_secs(1)));
+    let (p0, f0, r0) = (s.transport.position, s.fractional_position, s.resampler.current_frame_index());
+    let mut out = [Frame::new(1.0, 1.0); 2];
+    s.process(&mut out, 1.0 / 48000.0, &info);
+    assert!(same(out[0], Frame::ZERO) && same(out[1], Frame::ZERO), "C03.4f: a sound waiting to resume emits exact silence");
+    assert!(s.transport.position == p0 && s.fractional_position == f0 && s.resampler.current_frame_index() == r0, "C03.4f: and its position does not advance");
+    assert!(s.playback_state_manager.playback_state() == PlaybackState::WaitingToResume, "C03.4f: still waiting after the chunk");
+    kani::cover!(true);
+    core::mem::forget(info); core::mem::forget(s); core::mem::forget(h);
+}
+
 // @ob id=C03.4e strength=bounded tier=quick timeout=1800 bound="as C03.4c" fn=sound/static_sound/sound.rs::<StaticSound as Sound>::process
 // @req stopped through the real stop path (zero-length fade)
 // @ens Stopped after one update: finished, exact silence, frozen position; the handle reports Stopped
